@@ -74,7 +74,8 @@ fn alphabet(thorough: bool) -> Vec<A> {
         v.push(A::Ins(jmp("jnc", "a")));
         v.push(A::Ins(jmp("loop", "b")));
         v.push(A::Ins(Instr::Zero(ZeroOp::Cmc)));
-        v.push(A::Proc("f", vec![Item::MacroUse("m".into(), vec!["_".into()]), Item::Ins(Instr::Print(PrintKind::Flags))]));
+        // (print statements are not among the documented contents of a procedure body: opcodes / macro use)
+        v.push(A::Proc("f", vec![Item::MacroUse("m".into(), vec!["_".into()]), Item::Ins(Instr::Zero(ZeroOp::Cmc))]));
     }
     v
 }
